@@ -323,6 +323,31 @@ def shard_der_mutants(arg):
     return sh
 
 
+def shard_der_tags(arg):
+    """every value of each of the three tag octets (SEQUENCE, INTEGER r,
+    INTEGER s) of canonical signatures: only the canonical tag is accepted"""
+    n, pairs = arg
+    from ecdsa import util, der
+    sh = Shard()
+    for (r, s) in pairs:
+        good = rd.sig_value(r, s)
+        ln, p0 = rd.read_len(good, 1)
+        pos = [0, p0, p0 + len(rd.enc_int(r))]
+        for i in pos:
+            for v in range(256):
+                data = good[:i] + bytes([v]) + good[i + 1:]
+                sh.n += 1
+                sh.nt += 1
+                sh.hist["tag-octet-values"] += 1
+                bad = der_decode_case(util, der, n, data)
+                if bad:
+                    sh.hist["fail:" + bad[0]] += 1
+                    sh.violation("derdec", bad[0], dict(n=n, data=data),
+                                 bad[1], bad[2])
+    sh.sample(dict(n=hex(n), tag_octets=3, values=256), cap=1)
+    return sh
+
+
 def replay(check, case):
     from ecdsa import util, der
     if check == "roundtrip":
@@ -385,6 +410,11 @@ def main(ctx):
         vals = boundary_vals(n)[:: ctx.pick(3, 1)]
         pairs = [(r, s) for r in vals for s in vals]
         jobs.append((shard_der_mutants, "der-decoder-mutants", (n, pairs)))
+    for n in (251, 65521, int(catalog.real_curves()[6].order), SWEEP_ORDER):
+        vals = [1, n // 2, n - 1, 0x80, 0x7f]
+        vals = [v for v in vals if 0 <= v < n]
+        jobs.append((shard_der_tags, "der-tag-octets-all-values",
+                     (n, [(r, s) for r in vals for s in vals[:3]])))
     top = 136
     for ch in common.chunks(list(range(1, top + 1)), ctx.jobs):
         jobs.append((shard_length_sweep, "der-length-sweep", (ch, top)))
@@ -400,6 +430,8 @@ def main(ctx):
         jobs.append((shard_der_mutants, "der-decoder-mutants-long", (n, pairs)))
     rep = common.run_shards(ctx, jobs)
     rep.rule = (
+        "all 256 values of each of the three tag octets of canonical "
+        "signatures; "
         "every pair of DER content lengths (lr, ls) in [1,136]^2 with/without "
         "sign padding for a 1100-bit order (SEQUENCE bodies of every length "
         "6..276: both length-form boundaries in every split); "
